@@ -19,6 +19,7 @@ POOL = {"int": ["4", "0", "12", "1"], "negint": ["-3", "-1"], "float": ["0.5", "
         "sq": ["'auto'", "'auto_po2'", "'rnd'"], "dq": ['"floor"', '"auto"'],
         "qlist": ["[1 2]", "[0 1 3]"], "pylist": ["[1,2]", "[2, 3]"], "bare": ["auto", "floor"]}
 NAMES = ["", "k1", "k2"]
+LAYOUTS = ["tight", "after_comma", "before_comma", "both_comma", "inside_parens", "before_rparen", "spaced_equals"]
 
 
 def rec(*args, **kwargs):
@@ -63,9 +64,17 @@ def main():
       if len(kws) != len(set(kws)):
         continue
       nseq += 1
-      parts = [(kw + "=" if kw else "") + rnd.choice(POOL[kind]) for kw, kind in seq]
-      text = (", " if nseq % 2 else ",").join(parts)
-      events.append({"k": "parse", "toks": [{"kw": kw, "kind": kind} for kw, kind in seq], "text": text,
+      # layout: blanks where Python allows them (after / before commas, inside the parentheses, around '=')
+      layout = LAYOUTS[nseq % len(LAYOUTS)]
+      eq = " = " if layout == "spaced_equals" else "="
+      parts = [(kw + eq if kw else "") + rnd.choice(POOL[kind]) for kw, kind in seq]
+      sep = {"tight": ",", "after_comma": ", ", "before_comma": " ,", "both_comma": " , "}.get(layout, ", ")
+      text = sep.join(parts)
+      if layout == "inside_parens" and parts:
+        text = " " + text + " "
+      elif layout == "before_rparen" and parts:
+        text = text + " "
+      events.append({"k": "parse", "toks": [{"kw": kw, "kind": kind} for kw, kind in seq], "text": text, "layout": layout,
                      "got": outcome(lambda: SE.safe_eval("rec(" + text + ")", {"rec": rec})),
                      "py": outcome(lambda: eval("rec(" + text + ")", {"rec": rec, "__builtins__": {}}))})
   # outside the literal domain: list syntaxes, bare words (judged as their own clause -> findings)
